@@ -349,11 +349,13 @@ func (fr *Frame) contractCall(st *State, fc *FuncContract, key string, args []Va
 	for _, es := range fc.EmitEvents {
 		emitted[es.Kind] = true
 	}
+	var hk []string
 	for _, k := range fc.Emits {
 		if !emitted[k] {
-			u.havocEvents(st, k)
+			hk = append(hk, k)
 		}
 	}
+	u.havocEvents(st, hk...)
 	rets := fr.resultVals(st, sig, smtIdent(fnShort(key)))
 	post := map[string]Val{}
 	for k, v := range vars {
